@@ -30,9 +30,12 @@ def main():
                        'checker_cmd': 'lake build', 'trusted_base': []},
           'assumptions': [], 'wall_s': 0.0, 'violations': 1,
           'written_at': time.strftime('%Y-%m-%dT%H:%M:%S')}
-    os.makedirs(os.path.join(common.VERIF, 'evidence'), exist_ok=True)
-    json.dump(ev, open(os.path.join(common.VERIF, 'evidence', f'{pid}.json'),
-                       'w'), indent=1)
+    # evidence/ describes /repo; a run pointed at another tree keeps its record
+    # in the cache (as Ctx.write_evidence does)
+    edir = os.path.join(common.VERIF, 'evidence') if common.REPO == '/repo' \
+        else os.path.join(common.CACHE, 'evidence-other-tree')
+    os.makedirs(edir, exist_ok=True)
+    json.dump(ev, open(os.path.join(edir, f'{pid}.json'), 'w'), indent=1)
     print(f'VIOLATION property={pid} replay={rp} no-failing-input-found')
     print(f'  # code-under-test-crashed: {what}')
     return 1
